@@ -60,6 +60,18 @@ RULES = {
         "+-(D - 1) +- col +- row [+- offset] with exactly one matrix-dimension atom D states offset = col - row + D - 1, and D must be the "
         "row count - in the graph constructor, CSR->Banded (both passes), operator(), extract_diag, Banded->CSR and the kernels alike "
         "(sibling agreement). Broken (columns instead of rows) -> every rectangular matrix converts with shifted bands.", 9),
+    "C02.E2.local-array-index": (
+        "conversion code that builds its result in local DenseVector arrays: a subscript `p[v + c]` of such an array (p = V.elements(), V "
+        "constructed with extent E) by the variable of a counting loop `for(v = ..; v < B; ++v)` needs E - B - c >= 0 as polynomials over "
+        "the function's size quantities; if E and B are different size quantities (nothing in the function makes them equal) the array is "
+        "indexed by the wrong kind of index (e.g. a used-row-ordinal array indexed by the row number). Broken -> out-of-bounds access / "
+        "wrong offsets for every matrix where the two quantities differ (matrices with empty rows).", 14),
+    "C02.E2.cscr-row-kind": (
+        "SparseMatrixCSCR accessor contracts (class documentation: _indices[1] row start index per non-empty row, _indices[2] row number of each "
+        "non-empty row): row_ptr() and row_numbers() are subscripted by used-row ordinals only - never by an expression containing a row number "
+        "(parameter named row, loop variable bounded by rows(), a value read from row_numbers()), and an ordinal (a variable compared with "
+        "used_rows()) is compared with a row number only through row_numbers()[ordinal] (as operator() does). Broken -> heap overrun / wrong "
+        "row for every CSCR matrix with empty rows.", 12),
     "C02.size-pairing": (
         "every array pushed into _elements/_indices is paired, in order, with a push of the same extent into _elements_size/"
         "_indices_size. Broken -> clone(Deep/Weak), cross-type convert copy a wrong number of entries.", 80),
@@ -477,6 +489,250 @@ def extent_rules(ck, fam, seen_fail):
                         want[m] = want.get(m, 0) + c1 * c2
                 want = {m: c for m, c in want.items() if c}
                 ob("val", ev == want, "val_in array allocated with %s entries; col_ind_in has %s entries, entries per non-zero %s" % (pshow(ev), pshow(eci), pshow(factor)))
+
+
+# -------------------------------------------------------------------------------------------------
+# E2 (light): loop-variable subscripts of locally built arrays; CSCR used-row kinds
+# -------------------------------------------------------------------------------------------------
+
+def counting_loops(it):
+    """{loop var decl id: (bound node, +1 if `<=`)} for `for(v = ..; v < B; ++v)` loops whose body does not modify v"""
+    out = {}
+    for n in it.fn.nodes():
+        if n.get("k") != "For":
+            continue
+        init, c, inc = n.get("init"), n.get("c") or {}, n.get("inc") or {}
+        if init is None or init.get("k") != "Decl" or len(init.get("vars", [])) != 1:
+            continue
+        v = init["vars"][0]
+        if not (inc.get("k") == "Un" and inc.get("op") == "++" and L.unwrap(inc["e"]).get("d") == v["d"]):
+            continue
+        if not (c.get("k") == "Bin" and c.get("op") in ("<", "<=") and L.unwrap(c["lhs"]).get("d") == v["d"]):
+            continue
+        if it.reassigned_in(n.get("body"), v["d"]):
+            continue
+        out[v["d"]] = (c["rhs"], 1 if c["op"] == "<=" else 0)
+    return out
+
+
+def psub(a, b):
+    out = dict(a)
+    for m, c in b.items():
+        out[m] = out.get(m, 0) - c
+    return {m: c for m, c in out.items() if c}
+
+
+def single_atom(p):
+    ms = [m for m in p if m]
+    if len(ms) == 1 and len(ms[0]) == 1 and p[ms[0]] == 1:
+        return ms[0][0]
+    return None
+
+
+def local_array_rules(ck, fam, seen_fail):
+    for fn in fam.functions():
+        if fn.body is None:
+            continue
+        it = L.Interp(fam, fn)
+        it.is_loop_var = lambda d: False
+        # local DenseVector arrays with a known extent
+        vecs = {}
+        for n in fn.nodes():
+            if n.get("k") == "Var" and n.get("init") is not None:
+                d = n["init"]
+                if d.get("k") in ("Construct", "TempObj") and L.short(d.get("ccls", "")) == "DenseVector" and d.get("a") and (d.get("pn") or [""])[0] == "size_in" \
+                        and not n.get("ref"):
+                    vecs[n["d"]] = (n["n"], d["a"][0])
+        if not vecs:
+            continue
+        # role of each local array: the constructor parameter it is finally handed to
+        role = {}
+        for n in fn.nodes():
+            if n.get("k") in ("Construct", "TempObj") and L.short(n.get("ccls", "")) in fam.classes:
+                for pnm, a in zip(n.get("pn") or [], n.get("a") or []):
+                    a0 = L.unwrap(a)
+                    if a0.get("k") == "Ref" and a0.get("d") in vecs:
+                        role[a0["d"]] = pnm
+        ptrs = {}
+        for d, defs in it.ptr_defs().items():
+            if len(defs) == 1:
+                e = L.unwrap(defs[0])
+                while e.get("k") == "Cast" and e.get("e") is not None:
+                    e = L.unwrap(e["e"])
+                if e.get("k") == "MCall" and e.get("n") == "elements" and not e.get("a") and e.get("obj") is not None:
+                    o = L.unwrap(e["obj"])
+                    if o.get("k") == "Ref" and o.get("d") in vecs:
+                        ptrs[d] = o["d"]
+        loops = counting_loops(it)
+        key = L.fkey(fn)
+        results = {}
+        order = sorted(vecs)
+        for n in fn.nodes():
+            if n.get("k") != "Index":
+                continue
+            b = L.unwrap(n["b"])
+            if b.get("k") != "Ref" or b.get("d") not in ptrs:
+                continue
+            vd = ptrs[b["d"]]
+            idx = n["idx"]
+            # the index: loop variable + constant
+            lv, c, other = None, 0, False
+            stack = [(L.unwrap(idx), 1)]
+            while stack:
+                e, sg = stack.pop()
+                k = e.get("k")
+                if k == "Bin" and e.get("op") in ("+", "-"):
+                    stack.append((L.unwrap(e["lhs"]), sg))
+                    stack.append((L.unwrap(e["rhs"]), sg if e["op"] == "+" else -sg))
+                elif k == "Int":
+                    c += sg * int(e["v"])
+                elif k in ("Construct", "TempObj") and len(e.get("a", [])) == 1:
+                    stack.append((L.unwrap(e["a"][0]), sg))
+                elif k == "Ref" and e.get("d") in loops and sg == 1 and lv is None:
+                    lv = e["d"]
+                else:
+                    other = True
+            name = "array:%s" % role[vd] if vd in role else "array#%d" % order.index(vd)
+            if lv is None or other:
+                results.setdefault(name, []).append((True, True, "subscript %s: not a counting-loop variable plus constant" % render(n)[:60], n.get("l")))
+                continue
+            E = poly(it, vecs[vd][1])
+            B = poly(it, loops[lv][0])
+            diff = psub(psub(E, B), {(): c + loops[lv][1]} if c + loops[lv][1] else {})
+            nonconst = [m for m in diff if m]
+            if not nonconst:
+                k0 = diff.get((), 0)
+                results.setdefault(name, []).append((k0 >= 0, False,
+                    "subscript %s: array extent %s, loop bound %s, offset %+d -> %s" % (render(n)[:50], pshow(E), pshow(B), c, "in range" if k0 >= 0 else "runs %d past the end" % -k0), n.get("l")))
+                continue
+            ea, ba = single_atom(E), single_atom(B)
+            if ea is not None and ba is not None and ea != ba:
+                results.setdefault(name, []).append((False, False,
+                    "subscript %s: the array (%s) has extent %s but is indexed by a loop variable bounded by %s - two different size quantities that nothing in this "
+                    "function makes equal: the array is indexed by the wrong kind of index" % (render(n)[:50], vecs[vd][0], pshow(E), pshow(B)), n.get("l")))
+            else:
+                results.setdefault(name, []).append((True, True, "subscript %s: extent %s vs bound %s not comparable" % (render(n)[:50], pshow(E), pshow(B)), n.get("l")))
+        for name, rs in sorted(results.items()):
+            for ok, trivial, det, line in rs:
+                if not ok:
+                    if ("C02.E2.local-array-index", key, name, det) in seen_fail:
+                        continue
+                    seen_fail.add(("C02.E2.local-array-index", key, name, det))
+                ck.ob("C02.E2.local-array-index", "%s/%s" % (key, name), ok, det, fn.file, line, trivial=trivial,
+                      sample={"function": fn.full, "array": name, "detail": det} if not trivial else None)
+
+
+def cscr_kind_rules(ck, fam, facts, seen_fail):
+    """accessor contracts of SparseMatrixCSCR: row_ptr(): UsedRow+1 -> NZ, row_numbers(): UsedRow -> Row"""
+    def is_cscr_acc(e, names):
+        e = L.unwrap(e)
+        return e.get("k") == "MCall" and e.get("n") in names and not e.get("a") and L.short(e.get("ccls", "")) == "SparseMatrixCSCR"
+
+    for fn in facts.functions:
+        if fn.body is None or fn.tk not in ("inst", "plain", "spec"):
+            continue
+        if not any(is_cscr_acc(n, ("row_ptr", "row_numbers")) for n in fn.nodes() if n.get("k") == "MCall"):
+            continue
+        it = L.Interp(fam, fn)
+        key = L.fkey(fn)
+        # pointer locals initialised from the accessors
+        alias = {}
+        for d, defs in it.ptr_defs().items():
+            got = set()
+            for e in defs:
+                e = L.unwrap(e)
+                while e.get("k") == "Cast" and e.get("e") is not None:
+                    e = L.unwrap(e["e"])
+                if is_cscr_acc(e, ("row_ptr",)):
+                    got.add("row_ptr")
+                elif is_cscr_acc(e, ("row_numbers",)):
+                    got.add("row_numbers")
+                elif e.get("k") != "Null":
+                    got.add("?")
+            if got and got <= {"row_ptr", "row_numbers"} and len(got) == 1:
+                alias[d] = next(iter(got))
+
+        def acc_of(b):
+            b = L.unwrap(b)
+            if is_cscr_acc(b, ("row_ptr",)):
+                return "row_ptr"
+            if is_cscr_acc(b, ("row_numbers",)):
+                return "row_numbers"
+            if b.get("k") == "Ref" and b.get("d") in alias:
+                return alias[b["d"]]
+            return None
+
+        loops = counting_loops(it)
+        used_rows_vars, row_vars = set(), set()
+        for n in fn.nodes():
+            if n.get("k") == "Bin" and n.get("op") in ("<", "<=", "==", "!=", ">", ">="):
+                for x, y in ((n["lhs"], n["rhs"]), (n["rhs"], n["lhs"])):
+                    x0, y0 = L.unwrap(x), L.unwrap(y)
+                    if x0.get("k") == "Ref" and x0.get("dk") == "local" and y0.get("k") == "MCall" and y0.get("n") in ("used_rows", "_used_rows") and not y0.get("a"):
+                        used_rows_vars.add(x0["d"])
+        for d, (bnode, _) in loops.items():
+            b0 = L.unwrap(bnode)
+            if b0.get("k") == "MCall" and b0.get("n") in ("rows", "_rows") and not b0.get("a") and L.short(b0.get("ccls", "")) == "SparseMatrixCSCR":
+                row_vars.add(d)
+
+        def row_kind_atoms(e):
+            """atoms of Row kind inside e (not below a subscript of row_numbers, whose *result* is Row but whose index is not)"""
+            out = []
+            def rec(x):
+                x = L.unwrap(x)
+                k = x.get("k")
+                if k == "Ref" and x.get("dk") == "param" and x.get("n") == "row":
+                    out.append("parameter row")
+                elif k == "Ref" and x.get("d") in row_vars:
+                    out.append("loop variable %s bounded by rows()" % x["n"])
+                elif k == "Index" and acc_of(x["b"]) == "row_numbers":
+                    out.append("value row_numbers()[..]")
+                elif k == "Index":
+                    return
+                elif k in ("Bin",):
+                    rec(x["lhs"]); rec(x["rhs"])
+                elif k in ("Construct", "TempObj", "Cast") :
+                    for c in featlib.children(x):
+                        rec(c)
+            rec(e)
+            return out
+
+        n_sub = n_cmp = 0
+        for n in fn.nodes():
+            if n.get("k") == "Index" and acc_of(n["b"]) in ("row_ptr", "row_numbers"):
+                bad = row_kind_atoms(n["idx"])
+                sub = "subscript:%s" % acc_of(n["b"])
+                ok = not bad
+                det = "%s: %s() is indexed by used-row ordinals; index %s %s" % (render(n)[:60], acc_of(n["b"]), render(n["idx"])[:40],
+                                                                                     "contains no row number" if ok else "is built from the row number (%s)" % ", ".join(bad))
+                if not ok:
+                    if ("cscr", key, sub, det) in seen_fail:
+                        continue
+                    seen_fail.add(("cscr", key, sub, det))
+                ck.ob("C02.E2.cscr-row-kind", "%s/%s" % (key, sub), ok, det, fn.file, n.get("l"), sample={"function": fn.full, "detail": det})
+                n_sub += 1
+            if n.get("k") == "Bin" and n.get("op") in ("<", "<=", "==", "!=", ">", ">="):
+                for x, y in ((n["lhs"], n["rhs"]), (n["rhs"], n["lhs"])):
+                    x0 = L.unwrap(x)
+                    if x0.get("k") == "Ref" and x0.get("d") in used_rows_vars:
+                        y0 = L.unwrap(y)
+                        direct = [a for a in row_kind_atoms(y) if not a.startswith("value row_numbers")]
+                        is_rownum = bool(row_kind_atoms(y)) and not direct
+                        if direct:
+                            det = "%s: the used-row ordinal %s is compared with a row number (%s) instead of with row_numbers()[%s]" % (render(n)[:60], x0["n"], ", ".join(direct), x0["n"])
+                            if ("cscr", key, "cmp", det) in seen_fail:
+                                continue
+                            seen_fail.add(("cscr", key, "cmp", det))
+                            ck.ob("C02.E2.cscr-row-kind", "%s/ordinal-vs-row" % key, False, det, fn.file, n.get("l"), sample={"function": fn.full, "detail": det})
+                        elif is_rownum:
+                            pass
+            if n.get("k") == "Bin" and n.get("op") in ("<", "<=", "==", "!=", ">", ">="):
+                l0, r0 = L.unwrap(n["lhs"]), L.unwrap(n["rhs"])
+                for x, y in ((l0, r0), (r0, l0)):
+                    if x.get("k") in ("Index",) or x.get("k") in ("Construct", "TempObj", "Cast"):
+                        if any(a.startswith("value row_numbers") for a in row_kind_atoms(x)) and row_kind_atoms(y):
+                            ck.ob("C02.E2.cscr-row-kind", "%s/rownumber-vs-row" % key, True, "%s: row number compared with row number" % render(n)[:60], fn.file, n.get("l"))
+                            break
 
 
 # -------------------------------------------------------------------------------------------------
@@ -1075,6 +1331,8 @@ def run(tier):
         pairing_rules(ck, fam, seen_fail)
         extent_rules(ck, fam, seen_fail)
         banded_rules(ck, fam, fx, roles_tab, seen_fail)
+        local_array_rules(ck, fam, seen_fail)
+        cscr_kind_rules(ck, fam, fx, seen_fail)
         is_driver = fx.tu.endswith("c02_convert.cpp")
         if is_driver:
             clone_rules(ck, fam, seen_fail)
